@@ -155,6 +155,7 @@ def aggregate_order(chk, rid):
       chk.ob(rid, not grows, None, 'aggregate %s: step only adds to the set' % sqlname,
              'step does %s' % [norm(g, 40) for g in grows], fi=step, nontrivial=False)
     elif kind == 'list':
+      heap_discipline(chk, rid, m, sqlname, ci)
       n, bad = sanitised_uses(m, fin)
       chk.ob(rid, n > 0 and not bad, None,
              'aggregate %s: finalize reads the arrival-ordered list only through a total order' % sqlname,
@@ -230,6 +231,114 @@ def _is_data(e, data, strict=False):
   if isinstance(e, ast.IfExp) and not strict:
     return _is_data(e.body, data) or _is_data(e.orelse, data)
   return False
+
+
+def heap_family(module, expr, depth=0):
+  """{'min','max'} families a heap-primitive expression can denote, through
+  module-level aliases, getattr(heapq, 'name', fallback) and `or`."""
+  out = set()
+  if depth > 4 or expr is None:
+    return out
+  d = dotted(expr)
+  if d:
+    tail = d.split('.')[-1]
+    if d.startswith('heapq.') or tail.lstrip('_') in (
+        'heapify', 'heapreplace', 'heappush', 'heappop', 'heappushpop',
+        'heapify_max', 'heapreplace_max', 'heappop_max', 'heappush_max'):
+      if d.startswith('heapq.') or '.' not in d:
+        name = tail.lstrip('_')
+        if name.startswith('heap'):
+          out.add('max' if name.endswith('_max') else 'min')
+          return out
+    if '.' not in d:
+      try:
+        v = module.module_assign(d)
+      except AnalysisError:
+        return out
+      return heap_family(module, v, depth + 1)
+    return out
+  if isinstance(expr, ast.BoolOp):
+    for v in expr.values:
+      out |= heap_family(module, v, depth + 1)
+    return out
+  if isinstance(expr, ast.IfExp):
+    return heap_family(module, expr.body, depth + 1) | heap_family(module, expr.orelse, depth + 1)
+  if isinstance(expr, ast.Call) and call_tail(expr) == 'getattr' and len(expr.args) >= 2:
+    name = const_str(expr.args[1]) or ''
+    if name.lstrip('_').startswith('heap'):
+      out.add('max' if name.endswith('_max') else 'min')
+    if len(expr.args) > 2:
+      out |= heap_family(module, expr.args[2], depth + 1)
+    return out
+  return out
+
+
+def heap_discipline(chk, rid, module, sqlname, ci):
+  """A bounded K-best buffer: one heap family per class, the buffer is
+  heapified (same family) before it is used as a heap, and the eviction test
+  compares the root in the direction of that family."""
+  step = ci.methods.get('step')
+  uses = []     # (kind, families, call)
+  for c in walk_local(step.node):
+    if isinstance(c, ast.Call) and c.args and dotted(c.args[0]) == 'self.result':
+      fam = heap_family(module, c.func)
+      if fam:
+        nm = (dotted(c.func) or '').split('.')[-1].lower()
+        kind = 'heapify' if 'heapify' in nm else ('replace' if 'replace' in nm else 'other')
+        if kind == 'other':
+          # aliases: classify by what the alias resolves to
+          try:
+            src = norm(module.module_assign(dotted(c.func)), 200)
+            kind = 'heapify' if 'heapify' in src else ('replace' if 'replace' in src else 'other')
+          except AnalysisError:
+            pass
+        uses.append((kind, fam, c))
+  if not uses:
+    return
+  fams = set()
+  for k, f, c in uses:
+    fams |= f
+  chk.ob(rid, len(fams) == 1, None,
+         'aggregate %s: all heap primitives belong to one family (%s-heap)' % (sqlname, '/'.join(sorted(fams))),
+         'min-heap and max-heap primitives are mixed on the same buffer (%s): after '
+         'the first eviction the buffer is ordered the wrong way and later rows '
+         'evict the wrong element' % ', '.join(
+             '%s -> %s' % (norm(c.func, 30), '/'.join(sorted(f))) for k, f, c in uses),
+         fi=step)
+  repl = [u for u in uses if u[0] == 'replace']
+  heapify = [u for u in uses if u[0] == 'heapify']
+  if repl:
+    chk.ob(rid, bool(heapify), None,
+           'aggregate %s: the buffer is heapified before heapreplace is used on it' % sqlname,
+           'heapreplace is applied to a list that was never heapified: its '
+           'first element is not the extreme one, so which row is evicted '
+           'depends on arrival order', fi=step)
+  # direction of the eviction test
+  v = FnView(chk.repo, step.fq)
+  for k, f, c in repl:
+    if len(f) != 1:
+      continue
+    fam = list(f)[0]
+    n = [m for m, cc in v.all_calls() if cc is c]
+    tests = []
+    for e, val in (v.guards(n[0]) if n else []):
+      if isinstance(e, ast.Compare) and len(e.ops) == 1 and 'self.result[0]' in norm(e):
+        op = e.ops[0]
+        root_left = 'self.result[0]' in norm(e.left)
+        tests.append((type(op).__name__, root_left, val))
+    ok = False
+    for opn, root_left, val in tests:
+      if not val:
+        opn = {'Gt': 'LtE', 'Lt': 'GtE', 'GtE': 'Lt', 'LtE': 'Gt'}.get(opn, opn)
+      if not root_left:
+        opn = {'Gt': 'Lt', 'Lt': 'Gt', 'GtE': 'LtE', 'LtE': 'GtE'}.get(opn, opn)
+      # max-heap keeps the K smallest: evict when root > value; min-heap: root < value
+      if (fam == 'max' and opn in ('Gt',)) or (fam == 'min' and opn in ('Lt',)):
+        ok = True
+    chk.ob(rid, ok, None,
+           'aggregate %s: eviction compares the %s-heap root in the matching direction' % (sqlname, fam),
+           'the root of a %s-heap is replaced under the test %s: the buffer '
+           'keeps the wrong K rows' % (fam, tests), fi=step, node=c)
 
 
 def iterates_sorted(repo, fq, what):
